@@ -163,7 +163,11 @@ Proof. unfold fw_in_io. intros ->. reflexivity. Qed.
 
 (* continuations of recordUnreadBlocks used by the program *)
 Definition fw_wf_pc (pc : fpc) : Prop :=
-  match pc with FUnread _ _ k => io_cont k | _ => True end.
+  match pc with
+  | FUnread _ _ k => io_cont k
+  | FFilterFail f i _ | FPruned f i _ => i < length (f_blocks f)
+  | _ => True
+  end.
 
 Lemma survive_effs_neutral (g : nat -> job) l :
   n_rel (map (fun i => ESurvive (g i)) l) = 0 /\ n_acq (map (fun i => ESurvive (g i)) l) = 0 /\
@@ -195,6 +199,7 @@ Proof.
   all: try (survive_tac; cbn; lia).
   all: try (unread_tac; cbn; auto; fail).
   all: try (unread_tac; destruct pc; cbn in Hw; try contradiction; cbn; auto; fail).
+  all: try (apply andb_prop in Heqb; destruct Heqb as [_ Hlt]; apply Nat.ltb_lt in Hlt; exact Hlt).
 Qed.
 
 Definition bw_must_hold (pc : bpc) : bool :=
